@@ -187,6 +187,31 @@ var extShapes = func() []extShape {
 	add("qc duplicated retention", func() []*der.Node {
 		return qcExt(qcStmt(oidQcRetention, der.Int64(10)), qcStmt(oidQcRetention, der.Int64(10)))
 	})
+	// the same statement twice with DIFFERENT content, in both orders: which occurrence a lint judges must not depend
+	// on what else looked at the extension before
+	type twice struct {
+		l    string
+		a, b func() *der.Node
+	}
+	for _, tw := range []twice{
+		{"type esign/web", func() *der.Node { return qcStmt(oidQcType, der.Seq(der.OID(oidQcType+".1"))) }, func() *der.Node { return qcStmt(oidQcType, der.Seq(der.OID(oidQcType+".3"))) }},
+		{"type web/unknown", func() *der.Node { return qcStmt(oidQcType, der.Seq(der.OID(oidQcType+".3"))) }, func() *der.Node { return qcStmt(oidQcType, der.Seq(der.OID("1.2.3.4"))) }},
+		{"type eseal/empty", func() *der.Node { return qcStmt(oidQcType, der.Seq(der.OID(oidQcType+".2"))) }, func() *der.Node { return qcStmt(oidQcType, der.Seq()) }},
+		{"limit EUR/eur", func() *der.Node { return qcStmt(oidQcLimit, der.Seq(P("EUR"), der.Int64(1), der.Int64(6))) }, func() *der.Node { return qcStmt(oidQcLimit, der.Seq(P("eur"), der.Int64(-1), der.Int64(2))) }},
+		{"limit EUR/978", func() *der.Node { return qcStmt(oidQcLimit, der.Seq(P("EUR"), der.Int64(10), der.Int64(3))) }, func() *der.Node { return qcStmt(oidQcLimit, der.Seq(der.Int64(978), der.Int64(0), der.Int64(0))) }},
+		{"retention 10/-1", func() *der.Node { return qcStmt(oidQcRetention, der.Int64(10)) }, func() *der.Node { return qcStmt(oidQcRetention, der.Int64(-1)) }},
+		{"pds https en/http EN", func() *der.Node { return qcStmt(oidQcPDS, der.Seq(der.Seq(I("https://pds.example.com/en"), P("en")))) }, func() *der.Node { return qcStmt(oidQcPDS, der.Seq(der.Seq(I("http://pds.example.com/en"), P("EN")))) }},
+		{"legislation DE/xx", func() *der.Node { return qcStmt(oidQcLegisl, der.Seq(P("DE"))) }, func() *der.Node { return qcStmt(oidQcLegisl, der.Seq(P("xx"), P("D"))) }},
+		{"compliance plain/with info", func() *der.Node { return qcStmt(oidQcCompliance) }, func() *der.Node { return qcStmt(oidQcCompliance, der.Null()) }},
+		{"sscd plain/with info", func() *der.Node { return qcStmt(oidQcSSCD) }, func() *der.Node { return qcStmt(oidQcSSCD, der.Int64(1)) }},
+	} {
+		tw := tw
+		add("qc repeated statement "+tw.l, func() []*der.Node { return qcExt(qcStmt(oidQcCompliance), tw.a(), tw.b()) })
+		add("qc repeated statement (reversed) "+tw.l, func() []*der.Node { return qcExt(qcStmt(oidQcCompliance), tw.b(), tw.a()) })
+		add("qc repeated statement around others "+tw.l, func() []*der.Node {
+			return qcExt(tw.a(), qcStmt(oidQcCompliance), qcStmt(oidQcRetention, der.Int64(7)), tw.b())
+		})
+	}
 	add("qc good then malformed pds", func() []*der.Node {
 		return qcExt(qcStmt(oidQcPDS, der.Seq(der.Seq(I("https://pds.example.com/en"), P("en")))), qcStmt(oidQcPDS, I("x")))
 	})
